@@ -33,6 +33,10 @@ RULE = ("scheme drawn from {Blast, MRC, MRT, SVDMimo, GMDMimo, Alamouti}; "
         "calls the scheme refuses (wrong antenna count, negative noise "
         "variance). non-trivial = max(Nr,Nt) >= 2 and (min(Nr,Nt) == 1 or "
         "kappa > 2); distinct = SHA-1 of the case description")
+RULE += (" Added after the white-box review: "
+         "history steps also: receive-only use, the channel array "
+         "refilled in place, a 1-D channel (MRT, Alamouti) ")
+
 LEVEL_TEXT = ("Generated-input search (Hypothesis, seeded, sharded) over "
               "schemes, antenna configurations, conditioning-controlled "
               "channels, data blocks and noise variances, plus a complete "
